@@ -3,9 +3,11 @@ module github.com/nspcc-dev/neofs-node/verif
 go 1.25.0
 
 require (
+	github.com/google/uuid v1.6.0
 	github.com/mr-tron/base58 v1.2.0
 	github.com/nspcc-dev/bbolt v0.0.0-20260404200350-24f70ceb2bd9
 	github.com/nspcc-dev/neo-go v0.122.1-0.20260807115931-cfee8827ddfd
+	github.com/nspcc-dev/neofs-contract v0.26.1
 	github.com/nspcc-dev/neofs-node v0.0.0
 	github.com/nspcc-dev/neofs-sdk-go v1.0.0-rc.21.0.20260807155929-203994967075
 	github.com/nspcc-dev/rfc6979 v0.2.4
@@ -26,7 +28,6 @@ require (
 	github.com/decred/dcrd/crypto/ripemd160 v1.0.2 // indirect
 	github.com/decred/dcrd/dcrec/secp256k1/v4 v4.4.1 // indirect
 	github.com/golang/snappy v0.0.4 // indirect
-	github.com/google/uuid v1.6.0 // indirect
 	github.com/gorilla/websocket v1.5.3 // indirect
 	github.com/hashicorp/golang-lru/v2 v2.0.7 // indirect
 	github.com/holiman/uint256 v1.3.2 // indirect
@@ -48,7 +49,6 @@ require (
 	github.com/nspcc-dev/locode-db v0.8.2 // indirect
 	github.com/nspcc-dev/neo-go/pkg/interop v0.0.0-20260609115526-14bc7067ea2e // indirect
 	github.com/nspcc-dev/neofs-api-go/v2 v2.14.1-0.20240827150555-5ce597aa14ea // indirect
-	github.com/nspcc-dev/neofs-contract v0.26.1 // indirect
 	github.com/nspcc-dev/tzhash v1.8.4 // indirect
 	github.com/pierrec/lz4 v2.6.1+incompatible // indirect
 	github.com/prometheus/client_golang v1.23.2 // indirect
